@@ -84,8 +84,7 @@ func (p *Publish) Pack(w io.Writer) error {
 // Unpack read the packet bytes from io.Reader and decodes it into the packet struct.
 func (p *Publish) Unpack(r io.Reader) error {
 	var err error
-	restBuffer := make([]byte, p.FixHeader.RemainLength)
-	_, err = io.ReadFull(r, restBuffer)
+	restBuffer, err := readRemaining(r, p.FixHeader.RemainLength)
 	if err != nil {
 		return codes.ErrMalformed
 	}
